@@ -31,6 +31,7 @@ const (
 	expErrorOrClose
 	expErrorMayClose // error reply; afterwards the server either closes or has swallowed the announced body
 	expErrorOrCloseHere // an error reply (and the connection goes on), or an orderly close without reply
+	expAnyOrClose       // semantics unspecified (treated as unsupported): any single reply - none for noreply - and the connection goes on, or an orderly close
 )
 
 type expect struct {
@@ -41,6 +42,7 @@ type expect struct {
 	Msg    string
 	Desc   string
 	Num    *int64
+	Quiet  bool // expAnyOrClose: the command carried noreply
 }
 
 type expItem struct {
@@ -213,6 +215,13 @@ func (rc *refConn) feed(stream []byte, served func(key string) bool) {
 			e := expect{Kind: expExact, Status: "STORED", Desc: desc}
 			if !validKey(key) {
 				e.Status = "NOT_STORED"
+			} else if exp > 0x7fffffff || exp < -0x80000000 {
+				// a revision outside the int32 range of the record format: what it means is
+				// unspecified (only generated for a dedicated key that is never read)
+				e = expect{Kind: expAnyOrClose, Desc: desc + " (revision outside int32)", Quiet: noreply}
+				delete(rc.data, key)
+				add(e)
+				continue
 			} else if exp < 0 {
 				e = expect{Kind: expAny, Desc: desc} // negative revision: delete-with-body path, unspecified
 				delete(rc.data, key)
@@ -348,6 +357,11 @@ type protoConnPlan struct {
 }
 
 func protoKey(r *Rng, ci int, pool int) string {
+	if ci == 0 && r.Bool(1, 10) {
+		// keys that look like protocol words (only on one connection: the reference keeps one
+		// key space per connection)
+		return []string{"noreply", "noreply", "0", "1", "-1", "get", "END", "STORED", "cas"}[r.Intn(9)]
+	}
 	return fmt.Sprintf("c%dk%d", ci, r.Intn(pool))
 }
 
@@ -384,6 +398,15 @@ func genProtoStream(r *Rng, cfg *SimCfg, ci int, prop string) []byte {
 	max := int(cfg.BodyMax)
 	wellformed := func() {
 		k := protoKey(r, ci, pool)
+		if r.Bool(1, 25) {
+			// a revision that does not fit the record's int32 version field (e.g. a client sending an
+			// unsigned -1), on a key of its own that is never read back
+			v := genProtoValue(r, max)
+			// (not -2147483649: it truncates to 2^31-1, and the next auto-increment overflows: DESIGN section 11.3)
+			rev := []int64{2147483648, 4294967295, 4294967295, 4294967297, 1 << 40, -4294967290, -4294967295, -4294967296}[r.Intn(8)]
+			b.Write(cmdSet("set", fmt.Sprintf("c%dwrap%d", ci, r.Intn(2)), uint64(r.Pick(0, 0x10)), rev, v, r.Bool(1, 8)))
+			return
+		}
 		switch r.Weighted([]int{30, 25, 8, 8, 5, 3, 3, 2, 2, 4, 3, 2}) {
 		case 0:
 			v := genProtoValue(r, max)
@@ -949,6 +972,14 @@ func (x *protoExec) compare(ci int, rc *refConn, got []Reply, closedByServer boo
 			}
 			return
 		}
+		if e.Kind == expAnyOrClose {
+			if gi >= len(got) && closedByServer {
+				return // treated as unsupported: orderly close
+			}
+			if e.Quiet {
+				continue
+			}
+		}
 		if gi >= len(got) {
 			if (e.Kind == expErrorOrClose || e.Kind == expErrorOrCloseHere) && closedByServer {
 				return
@@ -989,7 +1020,7 @@ func (x *protoExec) compare(ci int, rc *refConn, got []Reply, closedByServer boo
 				x.fail("R-proto-order", "expected-error", fmt.Sprintf("%s: expected an error reply, got %s", where(e), r))
 				return
 			}
-		case expAny:
+		case expAny, expAnyOrClose:
 		case expExact:
 			if e.Status == "VERSION" || e.Msg == "stats" {
 				if r.Status != e.Status {
